@@ -11,7 +11,7 @@ func init() {
 	Register(&Property{
 		ID: "C36",
 		Decides: "(R36.1) precedence in rule selection: the rule sets are consulted in the order client id, net, node, suffrage, default map, built-in default; a later set is consulted only on the not-found (or not-configured) path of every earlier one; each answer carries the found set's own rule, checksum and label; the node and suffrage sets are consulted only for a request that names a node; " +
-			"(R36.2) enforcement: Allow is x/time/rate's Limiter.Allow of the limiter the RateLimiter holds, or the no-limit flag when it holds none; the held limiter is built from exactly the (limit, burst) given, no-limit is set only for an infinite limit, and Rule builds / updates the RateLimiter from the selected rule's Limit and Burst.",
+			"(R36.2) enforcement: an address keeps its limiter while it is used (every request refreshes its last-access time; shrink removes only addresses not accessed since the expiry); limiter and no-limit flag are updated together; Allow is x/time/rate's Limiter.Allow of the limiter the RateLimiter holds, or the no-limit flag when it holds none; the held limiter is built from exactly the (limit, burst) given, no-limit is set only for an infinite limit, and Rule builds / updates the RateLimiter from the selected rule's Limit and Burst.",
 		NotDecided: "the window bound itself (x/time/rate); precedence when a cached limiter of one kind is reused for a later request of the same address that would now match a higher-precedence set (Rule's shortcuts); rule matching inside each set.",
 		Run:        runC36,
 	})
@@ -126,6 +126,63 @@ func runC36(c *Ctx) {
 			}
 		}
 		c.MP(fn, "no-limit is set only for the infinite rate", nolim, 1, GCmp("limit", "==", "1797693134862315708145274237317043567980705675258449965989174768031572607800285387605895586327668781715404589535143824642343213268894641827684675467035375169860499105765512820762454900903893289440758685084551339423045832369032229481658085593321233482747978262041447231687381771809192998812504040261841248583*"), GCmp("limit", "==", "rate.Inf"), GCmp("limit", "==", "*e+308"), GCmp("limit", "==", "re:[0-9.e+]+"))
+	}
+	// the limiter and the no-limit flag change together (a stale flag would keep allowing)
+	if fn := c.Need("launch.(*RateLimiter).Update"); fn != nil {
+		var lim, flag []ssa.Instruction
+		for _, in := range allInstrs(fn) {
+			if st, ok := in.(*ssa.Store); ok {
+				a := c.D(st.Addr)
+				switch {
+				case a == "&r" || a == "&r.Limiter":
+					lim = append(lim, in)
+				case a == "&r.nolimit":
+					flag = append(flag, in)
+				}
+			}
+		}
+		c.Report(fn, "Update: every assignment of the limiter also assigns the no-limit flag", fn.Pos(), len(lim) >= 3 && len(lim) == len(flag), fmt.Sprintf("%d limiter stores, %d flag stores", len(lim), len(flag)))
+		for i, in := range lim {
+			paired := ""
+			for _, f := range flag {
+				if f.Block() == in.Block() {
+					paired = c.D(f.(*ssa.Store).Val)
+				}
+			}
+			v := c.D(in.(*ssa.Store).Val)
+			want := "false"
+			if v == "nil" {
+				want = "true|false"
+			}
+			c.Report(fn, fmt.Sprintf("Update: limiter assignment %d is paired with a flag assignment", i), c.InstrPos(in), paired != "" && (strings.Contains(want, paired)), "limiter <- "+v+", flag <- "+paired)
+		}
+		c.Held(fn, nil, "Update: limiter and flag change under the limiter's exclusive lock", append(lim, flag...), 2, "&r.l", LW)
+	}
+	// an address stays in the pool while it is used: every request refreshes its last-access time, and
+	// the shrink removes only addresses last accessed before the expiry
+	if parent := c.Need("launch.(*addrPool).rateLimiter"); parent != nil {
+		var cb *ssa.Function
+		for _, f := range WithClosures(parent) {
+			if len(c.CallsD(f, "i.Set(handler, *)")) > 0 {
+				cb = f
+			}
+		}
+		if cb == nil {
+			c.Unresolved(parent, "addrPool.rateLimiter: per-address callback", "not found")
+		} else {
+			c.MP(cb, "every request refreshes the address's last-access time before its limiter is looked up", c.CallsD(cb, "i.Set(handler, *)"), 1,
+				GCalled("p.lastAccessedAt.SetValue(addr, time.Now())"))
+		}
+	}
+	if parent := c.Need("launch.(*addrPool).shrink"); parent != nil {
+		for _, f := range WithClosures(parent) {
+			for _, in := range c.StoresD(f, "&var:varargs[0]") {
+				if c.D(in.(*ssa.Store).Val) == "addr" {
+					c.MP(f, "shrink gathers only addresses last accessed before the expiry", []ssa.Instruction{in}, 1, GTrue("accessed.Before(expire)"))
+				}
+			}
+		}
+		c.Exists(parent, "shrink walks the last-access table", c.CallsD(parent, "p.lastAccessedAt.TraverseMap(*)"), 1)
 	}
 	if fn := c.Need("launch.(*RateLimiterRules).Rule"); fn != nil {
 		mk := c.CallsTo(fn, "launch.NewRateLimiter")
